@@ -401,5 +401,9 @@ class ClientSession_(_Session):
         if not self.tr.closed:
             self.tr.drop(None)
         self.loop.run_until_idle()
+        try:
+            self.ws._response.close()
+        except Exception:  # noqa: BLE001
+            pass
         self.kit.close()
         self.loop._scheduled.clear()
